@@ -6,7 +6,7 @@
    matrices selected by the indices (first sentence of the property). *)
 From Coq Require Import ZArith List Lia Arith.
 Import ListNotations.
-Require Import Ring Sums Matrix Core Chain TTOps AddProof OpsProof Sweep SweepProof TensordotProof NormProof HodProof.
+Require Import Ring Sums Matrix Core Chain TTOps AddProof OpsProof Sweep SweepProof TensordotProof NormProof HodProof FullProof.
 Open Scope cr_scope.
 
 (* t + u *)
@@ -49,6 +49,18 @@ Theorem C01_matmul_linked (R : cring) (cs ds : list (core R)) f1 f2 :
   length ds = length cs -> linked cs f1 -> linked ds f2 -> linked (tmul cs ds) (f1 * f2).
 Proof. exact (linked_tmul cs ds f1 f2). Qed.
 Print Assumptions C01_matmul_linked.
+
+(* full() / matricize(): the flattened dense array is row-major in the row multi-index (outer) and the column multi-index
+   (inner); its entries are the elem values *)
+Theorem C01_full_index (R : cring) (cs : list (core R)) xs ys :
+  below xs (rows cs) -> below ys (cols cs) ->
+  nth (ravel (rows cs) xs * prodn (cols cs) + ravel (cols cs) ys) (full_flat cs) 0 = elem cs xs ys.
+Proof. exact (full_flat_nth cs xs ys). Qed.
+Print Assumptions C01_full_index.
+
+Theorem C01_full_size (R : cring) (cs : list (core R)) : length (full_flat cs) = (prodn (rows cs) * prodn (cols cs))%nat.
+Proof. exact (full_flat_length cs). Qed.
+Print Assumptions C01_full_size.
 
 (* residual_error: the tensor whose norm is taken, (A @ x) - b, entry by entry *)
 Theorem C01_residual (R : cring) (A x b : list (core R)) xs zs :
